@@ -103,6 +103,30 @@ func (c *perIPConn) Close() error {
 	return err
 }
 
+// closeUnderlying closes the wrapped connection without releasing the wrapper;
+// Close must still be called by the connection's owner.
+func (c *perIPConn) closeUnderlying() error {
+	c.lock.Lock()
+	cc := c.Conn
+	c.lock.Unlock()
+	if cc == nil {
+		return nil
+	}
+	return cc.Close()
+}
+
+// closeUnderlying closes the wrapped connection without releasing the wrapper;
+// Close must still be called by the connection's owner.
+func (c *perIPTLSConn) closeUnderlying() error {
+	c.lock.Lock()
+	cc := c.Conn
+	c.lock.Unlock()
+	if cc == nil {
+		return nil
+	}
+	return cc.Close()
+}
+
 func (c *perIPTLSConn) Close() error {
 	c.lock.Lock()
 	cc := c.Conn
